@@ -662,6 +662,12 @@ def get_item(I, obj, idx):
 
 def set_item(I, obj, idx, v):
     from .interp import Raised
+    if isinstance(obj, VAny) and I.spec_mode == 0 and \
+            (getattr(I.contract, 'ghost', None) or {}).get('opaque_subscript'):
+        # obj[idx] = v on an opaque object: an event of the ghost trace
+        I.ghost.setdefault('ext_trace', []).append(
+            {'name': 'setitem', 'args': [obj, idx, v], 'kwargs': {}, 'raised': False})
+        return
     if isinstance(obj, VList):
         k = concretise(idx)
         try:
